@@ -150,6 +150,13 @@ mod proofs {
         // SAFETY: all bytes are < 0x80.
         let s = unsafe { std::str::from_utf8_unchecked(&text) };
         let res = Prefix::from_hex(s);
+        let mut all_hex = true;
+        k = 0;
+        while k < L {
+            all_hex &= hex_val(text[k]).is_some();
+            k += 1;
+        }
+        assert!(res.is_ok() == all_hex, "accepted exactly when every character is a hex digit (either case)");
         if hex_val(text[i]).is_none() {
             assert!(matches!(res, Err(gix_hash::prefix::from_hex::Error::Invalid)));
         }
